@@ -122,6 +122,9 @@ def run(ctx):
     ctx.floor('J-WHO', 29)
     ctx.guard('J-PURE', 'lazy bodies', check_pure, ctx, w)
     ctx.floor('J-PURE', 8)
+    ctx.rule('J-SHARED', 'parse-time methods of (shared, cached) constructs write nothing onto the construct')
+    ctx.guard('J-SHARED', 'constructs', check_shared, ctx, w)
+    ctx.floor('J-SHARED', 7)
 
 
 # nested parse at a position unrelated to the caller's sequential parse: must run under preserve_stream_pos
@@ -279,6 +282,17 @@ def check_keys(ctx, w):
                 for p in excused:
                     ctx.note('J-KEY exception %s %s: %s' % (f.construct, p, KEY_EXC[(f.mod.replace('elftools/', ''), f.qual, p)]))
                 extra = [p for p in extra if p not in excused]
+                # field-level: data attributes the value reads from non-self objects must also feed the key
+                # (unless the key holds the whole parameter they come from)
+                vattrs = _data_attrs(stores[0].value, env)
+                kattrs = _data_attrs(key, env)
+                whole = set(x.id for x in ast.walk(key) if isinstance(x, ast.Name) and x.id in params) | set(
+                    p for k in key_names if k in env.defs for p in params if any(isinstance(x, ast.Name) and x.id == p and not _is_attr_base(env.defs[k], x)
+                                                                                  for x in ast.walk(env.defs[k])))
+                missing = sorted(a for a, roots in vattrs.items() if a not in kattrs and roots and not (roots & whole) and
+                                 not any((f.mod.replace('elftools/', ''), f.qual, r) in KEY_EXC for r in roots))
+                if missing:
+                    extra = extra + ['field ' + a for a in missing]
                 ctx.ob('J-KEY', f.construct, 'cache %s keyed by %s' % (cs, ast.unparse(key)), not extra, got=extra,
                        msg='the cached value depends on a parameter that is not part of the cache key: a later call with another '
                            'value of it gets the stale answer', line=n.lineno, sample='%s: value depends only on %s' % (f.construct, sorted(frontier)))
@@ -296,6 +310,35 @@ def check_keys(ctx, w):
                         used = set(x.id for x in ast.walk(s.value) if isinstance(x, ast.Name)) & params
                         ctx.ob('J-KEY', f.construct, 'lazy slot %s' % slot, not used, got=sorted(used),
                                msg='a lazily filled slot is computed from a parameter of the call that happens to come first')
+
+
+def _is_attr_base(tree, name_node):
+    for x in ast.walk(tree):
+        if isinstance(x, (ast.Attribute, ast.Subscript)) and x.value is name_node:
+            return True
+    return False
+
+
+def _data_attrs(value, env, depth=0, loopvars=None):
+    """attribute names read from non-self objects in an expression (expanded through single-assignment locals and
+    comprehension variables) -> {attr: set(root names)}"""
+    out = {}
+    loopvars = dict(loopvars or {})
+    for x in ast.walk(value):
+        if isinstance(x, (ast.ListComp, ast.GeneratorExp, ast.SetComp, ast.DictComp)):
+            for g in x.generators:
+                roots = set(n.id for n in ast.walk(g.iter) if isinstance(n, ast.Name))
+                for t in ast.walk(g.target):
+                    if isinstance(t, ast.Name):
+                        loopvars[t.id] = roots
+    for x in ast.walk(value):
+        if isinstance(x, ast.Attribute) and isinstance(x.value, ast.Name) and x.value.id not in ('self', 'cls'):
+            roots = loopvars.get(x.value.id, {x.value.id})
+            out.setdefault(x.attr, set()).update(roots)
+        elif isinstance(x, ast.Name) and x.id in env.defs and depth < 6:
+            for a, r in _data_attrs(env.defs[x.id], env, depth + 1, loopvars).items():
+                out.setdefault(a, set()).update(r)
+    return out
 
 
 def _param_deps(fnode, value, params, env, depth=0):
@@ -372,6 +415,38 @@ def check_pure(ctx, w):
                    'that observable differs before and after the first call', line=f.node.lineno)
 
 
+def check_shared(ctx, w):
+    """Construct objects are built once per DWARFStructs/ELFStructs configuration and shared by every later parse
+    (DWARFStructs._structs_cache): a _parse/_decode that stores parse-derived data on `self` leaks one input into the next."""
+    n = 0
+    for rel, tree in sorted(w.model.trees.items()):
+        if not rel.startswith('elftools/') or rel.startswith('elftools/construct/'):
+            continue
+        for cls in [x for x in ast.walk(tree) if isinstance(x, ast.ClassDef)]:
+            bases = [b.id if isinstance(b, ast.Name) else (b.attr if isinstance(b, ast.Attribute) else None) for b in cls.bases]
+            is_construct = any(b and (b in ('Construct', 'Subconstruct', 'Adapter') or
+                                      any(c.is_subclass_of('Construct') for c in w.model.classes.get(b, []))) for b in bases)
+            if not is_construct:
+                continue
+            for m in cls.body:
+                if isinstance(m, ast.FunctionDef) and m.name in ('_parse', '_decode', '_encode', '_build', '_sizeof'):
+                    n += 1
+                    writes = []
+                    for x in ast.walk(m):
+                        if isinstance(x, ast.Attribute) and isinstance(x.ctx, (ast.Store, ast.Del)) and isinstance(x.value, ast.Name) and x.value.id == 'self':
+                            writes.append(ast.unparse(x))
+                        elif isinstance(x, ast.Subscript) and isinstance(x.ctx, (ast.Store, ast.Del)) and ast.unparse(x.value).startswith('self.'):
+                            writes.append(ast.unparse(x))
+                        elif isinstance(x, ast.Call) and isinstance(x.func, ast.Attribute) and x.func.attr in MUTATORS + ('update', 'setdefault') and \
+                                ast.unparse(x.func.value).startswith('self.'):
+                            writes.append(ast.unparse(x.func))
+                    ctx.ob('J-SHARED', '%s:%s.%s' % (rel.replace('elftools/', ''), cls.name, m.name), 'writes nothing onto the construct', not writes, got=writes,
+                           msg='a parse-time method stores data on the (shared, cached) construct object: the next parse with the same '
+                               'structs sees state left by this one', line=m.lineno,
+                           sample='%s.%s: no store to self.*' % (cls.name, m.name))
+    ctx.analysed['construct_parse_methods'] = n
+
+
 def _root_attr(node):
     # self['x'] -> 'header[x]' ; self.a.b -> 'a'
     n = node
@@ -397,6 +472,7 @@ MUTANTS = [
     ('gnuhash-seek-out', 'elf/hash.py', "        while True:\n            # The symbol lookup below moves the (shared) stream, so position it\n            # at the chain word of the current symbol on every iteration.\n            self.elffile.stream.seek(self._chain_pos + (symidx - self.params['symoffset']) * self._wordsize)\n", "        self.elffile.stream.seek(self._chain_pos + (symidx - self.params['symoffset']) * self._wordsize)\n        while True:\n", 'H-CUR'),
     ('ranges-gen-tell', 'dwarf/ranges.py', "        while offset < end_offset:\n            range_list = struct_parse(self.structs.Dwarf_rnglists_entries, stream, offset)\n            offset = stream.tell()\n            yield range_list", "        stream.seek(offset)\n        while stream.tell() < end_offset:\n            yield struct_parse(self.structs.Dwarf_rnglists_entries, stream)", 'H-YIELD'),
     ('stabs-no-seek', 'elf/sections.py', "            stabs = struct_parse(\n                self.structs.Elf_Stabs,\n                self.stream,\n                stream_pos=offset)", "            stabs = struct_parse(\n                self.structs.Elf_Stabs,\n                self.stream)", 'H-'),
+    ('construct-parse-cache', 'dwarf/structs.py', "                    context[self.format_field + \"_parser\"] = parser", "                    self._last_parser = parser", 'J-SHARED'),
     ('lazy-mutates-header', 'dwarf/callframe.py', "        table = []\n\n        # Keeps a stack", "        table = []\n        self.header['decoded'] = True\n\n        # Keeps a stack", 'J-PURE'),
     ('abbrev-noseek', 'dwarf/abbrevtable.py', "        self.stream.seek(self.offset)\n", "", 'H-CUR'),
 ]
